@@ -19,6 +19,7 @@ structure Report where
   code : Nat
   enc : List Nat
   text : List Nat
+deriving DecidableEq
 
 /-- the PDU handed to `tr_send_all` -/
 def Report.bytes (r : Report) : List Nat := errorPduBytes r.ver r.enc r.code r.text
@@ -149,6 +150,7 @@ inductive RecvClass where
   | noHeader (k : Int)           -- shut down, or the 8 header bytes did not arrive (fault, time-out, end): nothing sent
   | payloadFault (k : Int)       -- header accepted, the payload did not arrive: nothing sent
   | lenSmall | lenBig | version | sizeCheck
+deriving DecidableEq
 
 /-- the reports of a class, for header `hdr` and the socket `c` as it was before the call -/
 def classReports (c : Conn) (hdr : List Nat) : RecvClass → List Report
@@ -952,13 +954,13 @@ theorem StreamEcho.shift {s enc : List Nat} (p : List Nat) (hv : ValidPdu p) (h 
   · rw [hs, List.flatten_cons, List.append_assoc]
 
 theorem StreamEcho.head8 {s : List Nat} (h : 8 ≤ s.length) : StreamEcho s (s.take 8) :=
-  ⟨s, ⟨[], fun _ h => by cases h, rfl⟩, Or.inl ⟨h, rfl⟩⟩
+  ⟨s, ⟨[], (fun _ h => by cases h), rfl⟩, Or.inl ⟨h, rfl⟩⟩
 
 theorem StreamEcho.whole {raw : List Nat} (s : List Nat) (hv : ValidPdu raw) : StreamEcho (raw ++ s) raw :=
-  ⟨raw ++ s, ⟨[], fun _ h => by cases h, rfl⟩, Or.inr ⟨hv, List.prefix_append _ _⟩⟩
+  ⟨raw ++ s, ⟨[], (fun _ h => by cases h), rfl⟩, Or.inr ⟨hv, List.prefix_append _ _⟩⟩
 
 theorem StreamEcho.hdr {raw : List Nat} (s : List Nat) (hv : ValidPdu raw) : StreamEcho (raw ++ s) (raw.take 8) := by
-  refine ⟨raw ++ s, ⟨[], fun _ h => by cases h, rfl⟩, Or.inl ⟨?_, ?_⟩⟩
+  refine ⟨raw ++ s, ⟨[], (fun _ h => by cases h), rfl⟩, Or.inl ⟨?_, ?_⟩⟩
   · rw [List.length_append]; have := hv.2.2.1; omega
   · rw [List.take_append_of_le_length hv.2.2.1]
 
@@ -1064,9 +1066,776 @@ theorem er_receivePdu_loop (c : Conn) (n : Net) (own : Nat) (t : Int) (hok : Tap
       | delivered raw' => rfl
       | noHeader k => rfl
       | payloadFault k => rfl
-      | lenSmall => have := hf.1; cases this
-      | lenBig => have := hf.1; cases this
-      | version => have := hf.1; cases this
-      | sizeCheck => have := hf.1; cases this
+      | lenSmall => have := hf.1; rw [hraw] at this; cases this
+      | lenBig => have := hf.1; rw [hraw] at this; cases this
+      | version => have := hf.1; rw [hraw] at this; cases this
+      | sizeCheck => have := hf.1; rw [hraw] at this; cases this
+
+/-- the `cleanup:` label does not touch the socket's connection part or the environment -/
+theorem er_finish {γ : Type} (r : Bool × St) (x : γ) (ok : Bool) (st' : St) (g : γ)
+    (h : (match cleanup r with | (ok, st) => (ok, st, x)) = (ok, st', g)) :
+    ok = r.1 ∧ st'.c = r.2.c ∧ st'.n = r.2.n ∧ g = x := by
+  unfold cleanup at h
+  simp only [Prod.mk.injEq] at h
+  obtain ⟨rfl, rfl, rfl⟩ := h
+  exact ⟨rfl, rfl, rfl, rfl⟩
+
+/-- what the reports of a synchronisation satisfy, and where their echoed bytes come from: a PDU
+    buffered earlier (`bufs`) or the stream still to be read -/
+def SyncReports (c1 : Conn) (bufs : List (List Nat)) (stream : List Nat) (ok : Bool) (rs : List Report) : Prop :=
+  rs.length ≤ 1 ∧ (rs ≠ [] → ok = false) ∧
+  ∀ r ∈ rs, SyncReport c1 r ∧ (r.enc ∈ bufs ∨ StreamEcho stream r.enc)
+
+theorem SyncReports.nil (c1 : Conn) (bufs : List (List Nat)) (stream : List Nat) (ok : Bool) :
+    SyncReports c1 bufs stream ok [] :=
+  ⟨Nat.zero_le _, fun h => absurd rfl h, fun r h => by cases h⟩
+
+/-- **`rtr_sync_receive_and_store_pdus`**: at most one report, only on failure; it echoes a buffered
+    PDU whole, or (a prefix of) the PDU at a PDU boundary of the stream -/
+theorem er_recvAndStore : ∀ (fuel : Nat) (st : St) (v4 v6 keys : List (List Nat)) (ok : Bool) (st' : St)
+    (g : Option Buffered), TapeOk st.n.tape → recvAndStore fuel st v4 v6 keys = (ok, st', g) →
+    ∃ rs, Sent st.n st'.n rs ∧ SyncReports st'.c (v4 ++ v6 ++ keys) (tapeBytes st.n.tape) ok rs := by
+  intro fuel
+  induction fuel with
+  | zero =>
+    intro st v4 v6 keys ok st' g _ hr
+    simp only [recvAndStore, Prod.mk.injEq] at hr
+    obtain ⟨rfl, rfl, rfl⟩ := hr
+    exact ⟨[], Sent.refl _, SyncReports.nil _ _ _ _⟩
+  | succ fuel ih =>
+    intro st v4 v6 keys ok st' g hok hr
+    unfold recvAndStore at hr
+    rcases e : receivePdu st.c st.n st.t.own Gen.RTR_RECV_TIMEOUT with ⟨res, c1, n1⟩
+    obtain ⟨rs0, hs0, hle0, hrep0, hok0⟩ := er_receivePdu_loop st.c st.n st.t.own _ hok res c1 n1 e
+    rw [e] at hr
+    cases res with
+    | rc code =>
+      simp only at hr
+      -- the reports are those of the receive; what follows only changes the state
+      have fin : ∀ (c2 : Conn) (n2 : Net), Sent n1 n2 [] → c2.version = c1.version →
+          (match cleanup (false, { st with c := c2, n := n2 }) with
+            | (ok, st) => (ok, st, (none : Option Buffered))) = (ok, st', g) →
+          ∃ rs, Sent st.n st'.n rs ∧ SyncReports st'.c (v4 ++ v6 ++ keys) (tapeBytes st.n.tape) ok rs := by
+        intro c2 n2 hq hv h
+        obtain ⟨hk, hc, hn, _⟩ := er_finish _ _ ok st' g h
+        simp only at hk hc hn
+        refine ⟨rs0, by rw [hn]; exact hs0.then_quiet hq, hle0, fun _ => hk, ?_⟩
+        intro r hr'
+        obtain ⟨_, ⟨a1, a2, a3, a4⟩, hecho⟩ := hrep0 r hr'
+        exact ⟨⟨by rw [a1, hc, hv], a2, a3, a4⟩, Or.inr hecho⟩
+      by_cases hc : code = -2
+      · rw [if_pos hc] at hr
+        have hq := Sent.state c1 n1 st.t.own .errTransport
+        have hv := er_changeState_conn c1 n1 st.t.own .errTransport
+        rcases hcs : changeState c1 n1 st.t.own .errTransport with ⟨c2, n2⟩
+        rw [hcs] at hr hq hv
+        exact fin c2 n2 hq hv hr
+      · rw [if_neg hc] at hr
+        exact fin c1 n1 (Sent.refl _) rfl hr
+    | ok raw =>
+      obtain ⟨hnil, hvalid, htb, hok1⟩ := hok0 raw rfl
+      subst hnil
+      simp only at hr
+      -- a report sent now, echoing (a prefix of) the PDU just received
+      have now : ∀ (c2 : Conn) (n2 : Net) (rs : List Report), Sent n1 n2 rs → rs.length ≤ 1 →
+          (∀ r ∈ rs, SyncReport c2 r ∧ (r.enc = raw ∨ r.enc = raw.take 8)) →
+          (match cleanup (false, { st with c := c2, n := n2 }) with
+            | (ok, st) => (ok, st, (none : Option Buffered))) = (ok, st', g) →
+          ∃ rs, Sent st.n st'.n rs ∧ SyncReports st'.c (v4 ++ v6 ++ keys) (tapeBytes st.n.tape) ok rs := by
+        intro c2 n2 rs hq hle hsh h
+        obtain ⟨hk, hc, hn, _⟩ := er_finish _ _ ok st' g h
+        simp only at hk hc hn
+        refine ⟨rs, by rw [hn]; exact hs0.quiet_then hq, hle, fun _ => hk, ?_⟩
+        intro r hr'
+        obtain ⟨hsr, he⟩ := hsh r hr'
+        refine ⟨by rw [hc]; exact hsr, Or.inr ?_⟩
+        rw [htb]
+        rcases he with he | he
+        · rw [he]; exact StreamEcho.whole _ hvalid
+        · rw [he]; exact StreamEcho.hdr _ hvalid
+      -- the PDU is buffered and the loop goes on
+      have next : ∀ (w4 w6 wk : List (List Nat)),
+          (∀ p, p ∈ w4 ++ w6 ++ wk → p ∈ v4 ++ v6 ++ keys ∨ p = raw) →
+          recvAndStore fuel { st with c := c1, n := n1 } w4 w6 wk = (ok, st', g) →
+          ∃ rs, Sent st.n st'.n rs ∧ SyncReports st'.c (v4 ++ v6 ++ keys) (tapeBytes st.n.tape) ok rs := by
+        intro w4 w6 wk hsub h
+        obtain ⟨rs, hs, hle, hfalse, hsh⟩ := ih { st with c := c1, n := n1 } w4 w6 wk ok st' g hok1 h
+        refine ⟨rs, hs0.quiet_then hs, hle, hfalse, ?_⟩
+        intro r hr'
+        obtain ⟨hsr, he⟩ := hsh r hr'
+        refine ⟨hsr, ?_⟩
+        rcases he with he | he
+        · rcases hsub _ he with h' | h'
+          · exact Or.inl h'
+          · right; rw [htb, h']; exact StreamEcho.whole _ hvalid
+        · right; rw [htb]; exact he.shift raw hvalid
+      split at hr
+      · exact next _ _ _ (fun p hp => by
+          simp only [List.mem_append, List.mem_singleton] at hp ⊢
+          rcases hp with ((hp | hp) | hp) | hp
+          · exact Or.inl (Or.inl (Or.inl hp))
+          · exact Or.inr hp
+          · exact Or.inl (Or.inl (Or.inr hp))
+          · exact Or.inl (Or.inr hp)) hr
+      · exact next _ _ _ (fun p hp => by
+          simp only [List.mem_append, List.mem_singleton] at hp ⊢
+          rcases hp with (hp | (hp | hp)) | hp
+          · exact Or.inl (Or.inl (Or.inl hp))
+          · exact Or.inl (Or.inl (Or.inr hp))
+          · exact Or.inr hp
+          · exact Or.inl (Or.inr hp)) hr
+      · exact next _ _ _ (fun p hp => by
+          simp only [List.mem_append, List.mem_singleton] at hp ⊢
+          rcases hp with (hp | hp) | (hp | hp)
+          · exact Or.inl (Or.inl (Or.inl hp))
+          · exact Or.inl (Or.inl (Or.inr hp))
+          · exact Or.inl (Or.inr hp)
+          · exact Or.inr hp) hr
+      · -- End of Data
+        by_cases hsess : be16 raw 2 ≠ st.ss.session
+        · rw [if_pos hsess] at hr
+          have hq := (er_sendErrorFromHost c1 n1 raw raw.length 0 (txtEodSession st.ss.session (be16 raw 2))).then_quiet
+            (Sent.state c1 _ st.t.own .errFatal)
+          have hv := er_changeState_conn c1 (sendErrorFromHost c1 n1 raw raw.length 0
+            (txtEodSession st.ss.session (be16 raw 2))).2 st.t.own .errFatal
+          rcases hse : sendErrorFromHost c1 n1 raw raw.length 0 (txtEodSession st.ss.session (be16 raw 2))
+            with ⟨ok1, n2⟩
+          rw [hse] at hr hq hv
+          simp only at hr hq hv
+          rcases hcs : changeState c1 n2 st.t.own .errFatal with ⟨c3, n3⟩
+          rw [hcs] at hr hq hv
+          simp only at hr hq hv
+          rw [er_repHost_len c1 raw 0 _ hvalid.2.2.1] at hq
+          refine now c3 n3 _ hq (er_repOf_le _ _ _ _) ?_ hr
+          intro r hr'
+          obtain ⟨hsr, he⟩ := er_repOf_sync c1 c3 raw 0 _ r hr' hv (Or.inl rfl) (er_txtEodSession_len _ _)
+          exact ⟨hsr, Or.inl he⟩
+        · rw [if_neg hsess] at hr
+          obtain ⟨rs, hs, hle, hver, _, hsucc, hshape, _⟩ := er_applyTables c1 n1 st.t st.ss.isResetting v4 v6 keys
+          simp only [Prod.mk.injEq] at hr
+          obtain ⟨rfl, rfl, rfl⟩ := hr
+          have hn : (cleanup (applyBuffered { st with c := c1, n := n1 } raw v4 v6 keys)).2.n =
+              (applyTables c1 n1 st.t st.ss.isResetting v4 v6 keys).n := rfl
+          have hc : (cleanup (applyBuffered { st with c := c1, n := n1 } raw v4 v6 keys)).2.c =
+              (applyTables c1 n1 st.t st.ss.isResetting v4 v6 keys).c := rfl
+          have hk : (cleanup (applyBuffered { st with c := c1, n := n1 } raw v4 v6 keys)).1 =
+              (applyTables c1 n1 st.t st.ss.isResetting v4 v6 keys).ok := rfl
+          have hv' : (cleanup (applyBuffered { st with c := c1, n := n1 } raw v4 v6 keys)).2.c.version =
+              c1.version := by rw [hc, hver]
+          refine ⟨rs, by rw [hn]; exact hs0.quiet_then hs, hle, ?_, ?_⟩
+          · intro hne
+            rw [hk]
+            cases hb : (applyTables c1 n1 st.t st.ss.isResetting v4 v6 keys).ok with
+            | false => rfl
+            | true => exact absurd (hsucc hb) hne
+          · intro r hr'
+            obtain ⟨p, hp, htr⟩ := hshape r hr'
+            obtain ⟨hsr, he⟩ := er_tableReport_sync c1 _ p r htr hv'
+            exact ⟨hsr, Or.inl (by rw [he]; exact hp)⟩
+      · -- an Error Report was received: handled, never answered
+        have hq := er_handleErrorPdu c1 n1 st.t.own raw
+        rcases hh : handleErrorPdu c1 n1 st.t.own raw with ⟨c2, n2⟩
+        rw [hh] at hr hq
+        simp only at hr hq
+        exact now c2 n2 [] hq (Nat.zero_le _) (fun r h => by cases h) hr
+      · exact next _ _ _ (fun p hp => Or.inl hp) hr
+      · -- a PDU that does not belong into the answer
+        have hq := er_sendErrorFromHost c1 n1 raw 8 0 txtUnexpectedSync
+        rcases hse : sendErrorFromHost c1 n1 raw 8 0 txtUnexpectedSync with ⟨ok1, n2⟩
+        rw [hse] at hr hq
+        simp only at hr hq
+        rw [er_repHost_8] at hq
+        refine now c1 n2 _ hq (er_repOf_le _ _ _ _) ?_ hr
+        intro r hr'
+        obtain ⟨hsr, he⟩ := er_repOf_sync c1 c1 (raw.take 8) 0 _ r hr' rfl (Or.inl rfl)
+          (by rw [er_text_lengths.2.2.2.2.2.2.1]; omega)
+        exact ⟨hsr, Or.inr he⟩
+
+theorem AtBoundary.refl (s : List Nat) : AtBoundary s s := ⟨[], (fun _ h => by cases h), rfl⟩
+
+theorem AtBoundary.cons {s rest : List Nat} (p : List Nat) (hv : ValidPdu p) (h : AtBoundary s rest) :
+    AtBoundary (p ++ s) rest := by
+  obtain ⟨ps, hps, hs⟩ := h
+  refine ⟨p :: ps, ?_, by rw [hs, List.flatten_cons, List.append_assoc]⟩
+  intro q hq
+  rcases List.mem_cons.1 hq with rfl | hq
+  · exact hv
+  · exact hps q hq
+
+theorem StreamEcho.lift {s rest enc : List Nat} (hb : AtBoundary s rest) (h : StreamEcho rest enc) :
+    StreamEcho s enc := by
+  obtain ⟨ps, hps, hs⟩ := hb
+  obtain ⟨rest', ⟨qs, hqs, hr⟩, h⟩ := h
+  refine ⟨rest', ⟨ps ++ qs, ?_, ?_⟩, h⟩
+  · intro q hq
+    rcases List.mem_append.1 hq with hq | hq
+    · exact hps q hq
+    · exact hqs q hq
+  · rw [hs, hr, List.flatten_append, List.append_assoc]
+
+/-- **the first loop of `rtr_sync`** (Serial Notify PDUs are skipped): reports only from
+    `rtr_receive_pdu`; the PDU handed on sits at a PDU boundary of the stream -/
+theorem er_syncFirst : ∀ (fuel : Nat) (st : St) (r : Option (List Nat)) (st' : St), TapeOk st.n.tape →
+    syncFirst fuel st = (r, st') →
+    ∃ rs, Sent st.n st'.n rs ∧ SyncReports st'.c [] (tapeBytes st.n.tape) r.isSome rs ∧
+      (∀ raw, r = some raw → rs = [] ∧ ValidPdu raw ∧
+        AtBoundary (tapeBytes st.n.tape) (raw ++ tapeBytes st'.n.tape) ∧ TapeOk st'.n.tape) := by
+  intro fuel
+  induction fuel with
+  | zero =>
+    intro st r st' _ hr
+    simp only [syncFirst, Prod.mk.injEq] at hr
+    obtain ⟨rfl, rfl⟩ := hr
+    exact ⟨[], Sent.refl _, SyncReports.nil _ _ _ _, fun raw h => by cases h⟩
+  | succ fuel ih =>
+    intro st r st' hok hr
+    unfold syncFirst at hr
+    rcases e : receivePdu st.c st.n st.t.own Gen.RTR_RECV_TIMEOUT with ⟨res, c1, n1⟩
+    obtain ⟨rs0, hs0, hle0, hrep0, hok0⟩ := er_receivePdu_loop st.c st.n st.t.own _ hok res c1 n1 e
+    rw [e] at hr
+    cases res with
+    | rc code =>
+      simp only at hr
+      have fin : ∀ (c2 : Conn) (n2 : Net), Sent n1 n2 [] → (rs0 ≠ [] → c2.version = c1.version) →
+          ((none : Option (List Nat)), ({ st with c := c2, n := n2 } : St)) = (r, st') →
+          ∃ rs, Sent st.n st'.n rs ∧ SyncReports st'.c [] (tapeBytes st.n.tape) r.isSome rs ∧
+            (∀ raw, r = some raw → rs = [] ∧ ValidPdu raw ∧
+              AtBoundary (tapeBytes st.n.tape) (raw ++ tapeBytes st'.n.tape) ∧ TapeOk st'.n.tape) := by
+        intro c2 n2 hq hv h
+        simp only [Prod.mk.injEq] at h
+        obtain ⟨rfl, rfl⟩ := h
+        refine ⟨rs0, hs0.then_quiet hq, ⟨hle0, fun _ => rfl, ?_⟩, fun raw h => by cases h⟩
+        intro r hr'
+        obtain ⟨_, ⟨a1, a2, a3, a4⟩, hecho⟩ := hrep0 r hr'
+        have hne : rs0 ≠ [] := fun h => by rw [h] at hr'; cases hr'
+        exact ⟨⟨by rw [a1]; exact (hv hne).symm, a2, a3, a4⟩, Or.inr hecho⟩
+      split at hr
+      · rename_i h4
+        have hq := Sent.state { c1 with version := c1.version - 1 } n1 st.t.own .fastReconnect
+        rcases hcs : changeState { c1 with version := c1.version - 1 } n1 st.t.own .fastReconnect with ⟨c2, n2⟩
+        rw [hcs] at hr hq
+        refine fin c2 n2 hq ?_ hr
+        intro hne
+        exfalso
+        cases hrs : rs0 with
+        | nil => exact hne hrs
+        | cons r0 _ =>
+          have := (hrep0 r0 (by rw [hrs]; exact List.mem_cons_self)).1
+          simp only [RecvRes.rc.injEq] at this
+          omega
+      · split at hr
+        · have hq := Sent.state c1 n1 st.t.own .errTransport
+          have hv := er_changeState_conn c1 n1 st.t.own .errTransport
+          rcases hcs : changeState c1 n1 st.t.own .errTransport with ⟨c2, n2⟩
+          rw [hcs] at hr hq hv
+          exact fin c2 n2 hq (fun _ => hv) hr
+        · exact fin c1 n1 (Sent.refl _) (fun _ => rfl) hr
+    | ok raw =>
+      obtain ⟨hnil, hvalid, htb, hok1⟩ := hok0 raw rfl
+      subst hnil
+      simp only at hr
+      split at hr
+      · obtain ⟨rs, hs, ⟨hle, hfalse, hsh⟩, hsome⟩ := ih { st with c := c1, n := n1 } r st' hok1 hr
+        refine ⟨rs, hs0.quiet_then hs, ⟨hle, hfalse, ?_⟩, ?_⟩
+        · intro r' hr'
+          obtain ⟨hsr, he⟩ := hsh r' hr'
+          refine ⟨hsr, ?_⟩
+          rcases he with he | he
+          · cases he
+          · right; rw [htb]; exact he.shift raw hvalid
+        · intro raw' h'
+          obtain ⟨a, b, c', d⟩ := hsome raw' h'
+          refine ⟨a, b, ?_, d⟩
+          rw [htb]; exact c'.cons raw hvalid
+      · simp only [Prod.mk.injEq] at hr
+        obtain ⟨rfl, rfl⟩ := hr
+        refine ⟨[], hs0, SyncReports.nil _ _ _ _, ?_⟩
+        intro raw' h'
+        cases h'
+        exact ⟨rfl, hvalid, by rw [htb]; exact AtBoundary.refl _, hok1⟩
+
+theorem er_sendErrorFromHost_tape (c : Conn) (n : Net) (raw : List Nat) (k code : Nat) (text : List Nat) :
+    (sendErrorFromHost c n raw k code text).2.tape = n.tape := by
+  unfold sendErrorFromHost
+  split
+  · exact sendErrorPdu_tape _ _ _ _ _
+  · split
+    · rfl
+    · exact sendErrorPdu_tape _ _ _ _ _
+
+/-- `rtr_handle_cache_response_pdu`: a report exactly when the session id is not the expected one;
+    it carries no encapsulated PDU -/
+theorem er_handleCacheResponse (c : Conn) (ss : Sess) (n : Net) (own : Nat) (raw : List Nat) :
+    Sent n (handleCacheResponse c ss n own raw).2.2.2
+      (if ss.reqSession = false ∧ ss.session ≠ be16 raw 2 then repOf c [] 0 txtWrongSession else []) ∧
+    (handleCacheResponse c ss n own raw).2.1.version = c.version ∧
+    (handleCacheResponse c ss n own raw).2.2.2.tape = n.tape ∧
+    ((handleCacheResponse c ss n own raw).1 = false ↔ (ss.reqSession = false ∧ ss.session ≠ be16 raw 2)) := by
+  unfold handleCacheResponse
+  simp only
+  by_cases h1 : ss.reqSession = true
+  · simp only [if_pos h1]
+    have : ¬ (ss.reqSession = false ∧ ss.session ≠ be16 raw 2) := by rw [h1]; simp
+    rw [if_neg this]
+    exact ⟨Sent.refl n, trivial, trivial, by simp [h1]⟩
+  · simp only [if_neg h1]
+    have h1' : ss.reqSession = false := by simpa using h1
+    by_cases h2 : ss.session ≠ be16 raw 2
+    · simp only [if_pos h2]
+      rw [if_pos ⟨h1', h2⟩]
+      have hq := er_sendErrorFromHost c n [] 0 0 txtWrongSession
+      have : repHost c [] 0 0 txtWrongSession = repOf c [] 0 txtWrongSession := by unfold repHost; rw [if_pos rfl]
+      rw [this] at hq
+      refine ⟨hq.then_quiet (Sent.state c _ own .errFatal), er_changeState_conn c _ own _, ?_, by simp [h1', h2]⟩
+      rw [changeState_tape]; exact er_sendErrorFromHost_tape c n [] 0 0 txtWrongSession
+    · simp only [if_neg h2]
+      rw [if_neg (fun h => h2 h.2)]
+      exact ⟨Sent.refl n, trivial, trivial, by simp [h2]⟩
+
+/-- provenance of a report of `rtr_sync`: (a prefix of) a PDU at a PDU boundary of the stream, or —
+    one site only, the Cache Response with the wrong session id — no encapsulated PDU at all -/
+def SyncEcho (stream : List Nat) (r : Report) : Prop :=
+  StreamEcho stream r.enc ∨ (r.enc = [] ∧ r.code = 0 ∧ r.text = txtWrongSession)
+
+/-- **`rtr_sync`**: at most one Error Report per exchange, only when the exchange fails; it carries
+    the socket's version, one of the codes 0 / 6 / 7 / 8, a short text, never echoes an Error
+    Report, and its encapsulated bytes are a prefix (8 bytes or the whole PDU) of a PDU exactly as
+    it stood in the stream at a PDU boundary -/
+theorem er_syncG (fuel : Nat) (st : St) (ok : Bool) (st' : St) (g : Option (List Nat × Buffered))
+    (hok : TapeOk st.n.tape) (hr : syncG fuel st = (ok, st', g)) :
+    ∃ rs, Sent st.n st'.n rs ∧ rs.length ≤ 1 ∧ (rs ≠ [] → ok = false) ∧
+      ∀ r ∈ rs, SyncReport st'.c r ∧ SyncEcho (tapeBytes st.n.tape) r := by
+  unfold syncG at hr
+  rcases e : syncFirst fuel st with ⟨r, st1⟩
+  obtain ⟨rs1, hs1, ⟨hle1, hf1, hsh1⟩, hsome⟩ := er_syncFirst fuel st r st1 hok e
+  rw [e] at hr
+  cases r with
+  | none =>
+    simp only [Prod.mk.injEq] at hr
+    obtain ⟨rfl, rfl, rfl⟩ := hr
+    refine ⟨rs1, hs1, hle1, fun _ => rfl, ?_⟩
+    intro r hr'
+    obtain ⟨a, b⟩ := hsh1 r hr'
+    refine ⟨a, ?_⟩
+    rcases b with b | b
+    · cases b
+    · exact Or.inl b
+  | some raw =>
+    obtain ⟨hnil, hvalid, hbnd, hok1⟩ := hsome raw rfl
+    subst hnil
+    simp only at hr
+    -- a report sent now that echoes the first 8 bytes of `raw`, or nothing
+    have now : ∀ (c2 : Conn) (n2 : Net) (rs : List Report) (ok2 : Bool), Sent st1.n n2 rs → rs.length ≤ 1 →
+        (rs ≠ [] → ok2 = false) → (∀ r ∈ rs, SyncReport c2 r ∧ SyncEcho (raw ++ tapeBytes st1.n.tape) r) →
+        ∃ rs, Sent st.n n2 rs ∧ rs.length ≤ 1 ∧ (rs ≠ [] → ok2 = false) ∧
+          ∀ r ∈ rs, SyncReport c2 r ∧ SyncEcho (tapeBytes st.n.tape) r := by
+      intro c2 n2 rs ok2 hq hle hfl hsh
+      refine ⟨rs, hs1.quiet_then hq, hle, hfl, ?_⟩
+      intro r hr'
+      obtain ⟨a, b⟩ := hsh r hr'
+      refine ⟨a, ?_⟩
+      rcases b with b | b
+      · exact Or.inl (b.lift hbnd)
+      · exact Or.inr b
+    split at hr
+    · -- Error Report: handled, not answered
+      have hq := er_handleErrorPdu st1.c st1.n st1.t.own raw
+      rcases hh : handleErrorPdu st1.c st1.n st1.t.own raw with ⟨c2, n2⟩
+      rw [hh] at hr hq
+      simp only [Prod.mk.injEq] at hr hq
+      obtain ⟨rfl, rfl, rfl⟩ := hr
+      exact now c2 n2 [] false hq (Nat.zero_le _) (fun _ => rfl) (fun r h => by cases h)
+    · -- Cache Reset
+      have hq := Sent.state st1.c st1.n st1.t.own .errNoIncr
+      rcases hh : changeState st1.c st1.n st1.t.own .errNoIncr with ⟨c2, n2⟩
+      rw [hh] at hr hq
+      simp only [Prod.mk.injEq] at hr hq
+      obtain ⟨rfl, rfl, rfl⟩ := hr
+      exact now c2 n2 [] false hq (Nat.zero_le _) (fun _ => rfl) (fun r h => by cases h)
+    · -- Cache Response
+      obtain ⟨hq, hv, htape, hiff⟩ := er_handleCacheResponse st1.c st1.ss st1.n st1.t.own raw
+      rcases hh : handleCacheResponse st1.c st1.ss st1.n st1.t.own raw with ⟨ok2, c2, ss2, n2⟩
+      rw [hh] at hr hq hv htape hiff
+      simp only at hr hq hv htape hiff
+      cases ok2 with
+      | false =>
+        simp only [Bool.not_false, if_true, Prod.mk.injEq] at hr
+        obtain ⟨rfl, rfl, rfl⟩ := hr
+        rw [if_pos (hiff.1 rfl)] at hq
+        refine now c2 n2 _ false hq (er_repOf_le _ _ _ _) (fun _ => rfl) ?_
+        intro r hr'
+        obtain ⟨e0, _, _⟩ := er_repOf_mem _ _ _ _ r hr'
+        obtain ⟨hsr, he⟩ := er_repOf_sync st1.c c2 [] 0 _ r hr' hv (Or.inl rfl)
+          (by rw [er_text_lengths.2.2.1]; omega)
+        refine ⟨hsr, Or.inr ⟨he, ?_, ?_⟩⟩ <;> rw [e0]
+      | true =>
+        simp only [Bool.not_true, Bool.false_eq_true, if_false] at hr
+        have hno : ¬ (st1.ss.reqSession = false ∧ st1.ss.session ≠ be16 raw 2) := by
+          intro h; have := hiff.2 h; cases this
+        rw [if_neg hno] at hq
+        have hok2 : TapeOk n2.tape := by rw [htape]; exact hok1
+        rcases e3 : recvAndStore fuel { st1 with c := c2, ss := ss2, n := n2 } [] [] [] with ⟨ok3, st3, g3⟩
+        obtain ⟨rs3, hs3, hle3, hf3, hsh3⟩ := er_recvAndStore fuel _ [] [] [] ok3 st3 g3 hok2 e3
+        rw [e3] at hr
+        simp only at hr
+        have key : ∃ rs, Sent st.n st3.n rs ∧ rs.length ≤ 1 ∧ (rs ≠ [] → ok3 = false) ∧
+            ∀ r ∈ rs, SyncReport st3.c r ∧ SyncEcho (tapeBytes st.n.tape) r := by
+          refine now st3.c st3.n rs3 ok3 (hq.quiet_then hs3) hle3 hf3 ?_
+          intro r hr'
+          obtain ⟨a, b⟩ := hsh3 r hr'
+          refine ⟨a, Or.inl ?_⟩
+          rcases b with b | b
+          · cases b
+          · simp only at b
+            rw [htape] at b
+            exact b.shift raw hvalid
+        obtain ⟨rs, k1, k2, k3, k4⟩ := key
+        cases ok3 with
+        | false =>
+          simp only [Bool.not_false, if_true, Prod.mk.injEq] at hr
+          obtain ⟨rfl, rfl, rfl⟩ := hr
+          exact ⟨rs, k1, k2, fun _ => rfl, k4⟩
+        | true =>
+          simp only [Bool.not_true, Bool.false_eq_true, if_false, Prod.mk.injEq] at hr
+          obtain ⟨rfl, rfl, rfl⟩ := hr
+          refine ⟨rs, k1, k2, ?_, k4⟩
+          intro hne; have := k3 hne; cases this
+    · -- any other PDU: refused, header echoed
+      have hq := er_sendErrorFromHost st1.c st1.n raw 8 0 txtUnexpectedSync2
+      rcases hse : sendErrorFromHost st1.c st1.n raw 8 0 txtUnexpectedSync2 with ⟨ok1, n2⟩
+      rw [hse] at hr hq
+      simp only [Prod.mk.injEq] at hr hq
+      obtain ⟨rfl, rfl, rfl⟩ := hr
+      rw [er_repHost_8] at hq
+      refine now st1.c n2 _ false hq (er_repOf_le _ _ _ _) (fun _ => rfl) ?_
+      intro r hr'
+      obtain ⟨hsr, he⟩ := er_repOf_sync st1.c st1.c (raw.take 8) 0 _ r hr' rfl (Or.inl rfl)
+        (by rw [er_text_lengths.2.2.2.2.2.2.2]; omega)
+      exact ⟨hsr, Or.inl (by rw [he]; exact StreamEcho.hdr _ hvalid)⟩
+
+/-- **`rtr_wait_for_sync`**: only the reports of `rtr_receive_pdu` -/
+theorem er_waitForSync (st : St) (hok : TapeOk st.n.tape) :
+    ∃ rs, Sent st.n (waitForSync st).2.n rs ∧ rs.length ≤ 1 ∧ (rs ≠ [] → (waitForSync st).1 = false) ∧
+      ∀ r ∈ rs, SyncReport (waitForSync st).2.c r ∧ StreamEcho (tapeBytes st.n.tape) r.enc := by
+  unfold waitForSync
+  simp only
+  generalize (if st.ss.lastUpdate + ↑st.tm.refresh - st.n.now < 0 then (0 : Int)
+    else st.ss.lastUpdate + ↑st.tm.refresh - st.n.now) = w
+  rcases e : receivePdu st.c st.n st.t.own w with ⟨res, c1, n1⟩
+  obtain ⟨rs0, hs0, hle0, hrep0, hok0⟩ := er_receivePdu_loop st.c st.n st.t.own w hok res c1 n1 e
+  cases res with
+  | ok raw =>
+    refine ⟨rs0, hs0, hle0, ?_, fun r hr' => ⟨(hrep0 r hr').2.1, (hrep0 r hr').2.2⟩⟩
+    intro hne; exact absurd (hok0 raw rfl).1 hne
+  | rc code =>
+    refine ⟨rs0, hs0, hle0, ?_, fun r hr' => ⟨(hrep0 r hr').2.1, (hrep0 r hr').2.2⟩⟩
+    intro hne
+    cases hrs : rs0 with
+    | nil => exact absurd hrs hne
+    | cons r0 _ =>
+      have := (hrep0 r0 (by rw [hrs]; exact List.mem_cons_self)).1
+      simp only [RecvRes.rc.injEq] at this
+      subst this
+      simp
+
+/-- **SILENT.**  While the client waits for a Serial Notify (`rtr_wait_for_sync`, state ESTABLISHED)
+    any other PDU that passes the size and version checks — a Cache Reset, a stray Cache Response, a
+    Prefix PDU, even an Error Report from the cache — makes the call return RTR_ERROR with NO Error
+    Report, and the socket's connection part is exactly what `rtr_receive_pdu` left (no state
+    change): the PDU is consumed and dropped. -/
+theorem er_waitForSync_silent (st : St) (raw : List Nat) (c1 : Conn) (n1 : Net)
+    (hrecv : receivePdu st.c st.n st.t.own
+      (if st.ss.lastUpdate + ↑st.tm.refresh - st.n.now < 0 then (0 : Int)
+        else st.ss.lastUpdate + ↑st.tm.refresh - st.n.now) = (.ok raw, c1, n1))
+    (hty : typeOf raw ≠ 0) (hok : TapeOk st.n.tape) :
+    (waitForSync st).1 = false ∧ (waitForSync st).2.c = c1 ∧ (waitForSync st).2.n = n1 ∧
+    c1.state = st.c.state ∧ Sent st.n (waitForSync st).2.n [] := by
+  obtain ⟨rs0, hs0, _, _, hok0⟩ := er_receivePdu_loop st.c st.n st.t.own _ hok _ c1 n1 hrecv
+  have hnil := (hok0 raw rfl).1
+  subst hnil
+  have hstate : c1.state = st.c.state := by
+    obtain ⟨cls, hdr, _, _, hf, _, hh, _⟩ := er_receivePdu st.c st.n st.t.own _ hok _ c1 n1 hrecv
+    -- on the delivery path the connection part is only touched by the live downgrade
+    rw [receivePdu_eq_stages] at hrecv
+    by_cases hs : st.c.state = .shutdown
+    · rw [if_pos hs] at hrecv; cases hrecv
+    · rw [if_neg hs] at hrecv
+      have hst := er_recvAll_stop st.n 8 (if st.ss.lastUpdate + ↑st.tm.refresh - st.n.now < 0 then (0 : Int)
+        else st.ss.lastUpdate + ↑st.tm.refresh - st.n.now)
+      rcases h1 : recvAll st.n 8 (if st.ss.lastUpdate + ↑st.tm.refresh - st.n.now < 0 then (0 : Int)
+        else st.ss.lastUpdate + ↑st.tm.refresh - st.n.now) with ⟨rc, hd, n0, stop⟩
+      rw [h1] at hrecv hst
+      simp only at hrecv hst
+      by_cases hneg : rc < 0
+      · rw [if_pos hneg] at hrecv
+        obtain ⟨_, ⟨k, hk⟩, _⟩ := er_recvTransportError (applyStop st.c stop) n0 st.t.own rc
+        rw [hrecv] at hk; cases hk
+      · rw [if_neg hneg] at hrecv
+        have : stop = false := hst (by omega)
+        subst this
+        rw [er_applyStop_false] at hrecv
+        unfold recvAfterHdr at hrecv
+        simp only at hrecv
+        split at hrecv
+        · have := (er_failFatal st.c n0 st.t.own hd txtCorrupt).2.1; rw [hrecv] at this; cases this
+        · split at hrecv
+          · have := (er_failFatal st.c n0 st.t.own hd txtTooBig).2.1; rw [hrecv] at this; cases this
+          · split at hrecv
+            · simp only [Prod.mk.injEq] at hrecv; cases hrecv.1
+            · unfold recvBody at hrecv
+              simp only at hrecv
+              split at hrecv
+              · simp only [Prod.mk.injEq] at hrecv; cases hrecv.1
+              · have hstop2 : ∀ (x : Int × List Nat × Net × Bool), (0 ≤ x.1 → x.2.2.2 = false) →
+                    (if x.1 < 0 then recvTransportError (applyStop (downgrade st.c hd) x.2.2.2) x.2.2.1 st.t.own x.1
+                      else if (!checkSize (hd ++ x.2.1)) = true then
+                        failFatal (applyStop (downgrade st.c hd) x.2.2.2) x.2.2.1 st.t.own hd txtCorrupt
+                      else (RecvRes.ok (hd ++ x.2.1), applyStop (downgrade st.c hd) x.2.2.2, x.2.2.1)) =
+                      (RecvRes.ok raw, c1, n1) → c1.state = st.c.state := by
+                  intro x hx hxe
+                  split at hxe
+                  · obtain ⟨_, ⟨k, hk⟩, _⟩ := er_recvTransportError (applyStop (downgrade st.c hd) x.2.2.2) x.2.2.1
+                      st.t.own x.1
+                    rw [hxe] at hk; cases hk
+                  · rename_i hx0
+                    split at hxe
+                    · have := (er_failFatal (applyStop (downgrade st.c hd) x.2.2.2) x.2.2.1 st.t.own hd txtCorrupt).2.1
+                      rw [hxe] at this; cases this
+                    · simp only [Prod.mk.injEq] at hxe
+                      rw [← hxe.2.1, hx (by omega), er_applyStop_false, er_downgrade_state]
+                split at hrecv
+                · exact hstop2 _ (er_recvAll_stop _ _ _) hrecv
+                · exact hstop2 (0, [], n0, false) (fun _ => rfl) hrecv
+  unfold waitForSync
+  simp only
+  rw [hrecv]
+  simp only
+  exact ⟨by simp [hty], trivial, trivial, hstate, hs0⟩
+
+/-! ## well-formedness of the reports -/
+
+theorem er_valid_len (p : List Nat) (hv : ValidPdu p) (hne : ¬ (2 ≤ p.length ∧ p.getD 1 0 = 10)) :
+    p.length ≤ 123 := by
+  obtain ⟨hc, hl, h8, _⟩ := hv
+  have hk := (checkSize_spec p).1 hc
+  unfold KnownSize at hk
+  rw [hl]
+  rcases hk with h | h | h | h | h | h | h | h | h | h | h
+  · rw [h.2]; decide
+  · rw [h.2]; decide
+  · rw [h.2]; decide
+  · rw [h.2]; decide
+  · rw [h.2]; decide
+  · rw [h.2]; decide
+  · rw [h.2.2]; decide
+  · rw [h.2.2]; decide
+  · rw [h.2]; decide
+  · rw [h.2]; decide
+  · exact absurd ⟨by omega, h.1⟩ hne
+
+theorem er_streamEcho_len (s enc : List Nat) (h : StreamEcho s enc) (hne : ¬ (2 ≤ enc.length ∧ enc.getD 1 0 = 10)) :
+    enc.length ≤ 123 := by
+  obtain ⟨rest, _, h | h⟩ := h
+  · rw [h.2, List.length_take]; omega
+  · exact er_valid_len enc h.1 hne
+
+/-- **(1) every report is a well-formed Error Report PDU** of the socket's version: it fits the
+    client's maximum, its length field is its length, the encapsulated-length field, the
+    encapsulated bytes, the text-length field and the text are in place and add up -/
+theorem er_report_wellformed (c1 : Conn) (stream : List Nat) (r : Report) (hs : SyncReport c1 r)
+    (he : SyncEcho stream r) :
+    r.enc.length + r.text.length + 16 ≤ Gen.RTR_MAX_PDU_LEN ∧ WellFormedPdu c1.version r.bytes ∧
+    be32 r.bytes 8 = r.enc.length ∧ (r.bytes.drop 12).take r.enc.length = r.enc ∧
+    be32 r.bytes (12 + r.enc.length) = r.text.length ∧ r.bytes.drop (16 + r.enc.length) = r.text ∧
+    r.bytes.length = 16 + r.enc.length + r.text.length ∧ be16 r.bytes 2 = r.code ∧ typeOf r.bytes = 10 := by
+  have hlen : r.enc.length ≤ 123 := by
+    rcases he with he | he
+    · exact er_streamEcho_len stream r.enc he hs.notErr
+    · rw [he.1]; simp
+  have hm : Gen.RTR_MAX_PDU_LEN = 3248 := rfl
+  have htext := hs.text
+  have hb : r.enc.length + r.text.length + 16 ≤ Gen.RTR_MAX_PDU_LEN := by omega
+  have hf := errorPdu_fields r.ver r.enc r.code r.text hb
+  have hw : WellFormedPdu c1.version r.bytes := by
+    have := errorPdu_wf r.ver r.enc r.code r.text hb
+    rw [← hs.ver]; exact this
+  have hcode : r.code < 65536 := by rcases hs.code with h | h | h | h <;> omega
+  exact ⟨hb, hw, hf.2.2.1, hf.2.2.2.1, hf.2.2.2.2.1, hf.2.2.2.2.2.1, hf.2.2.2.2.2.2.1, hf.2.1 hcode, hf.1⟩
+
+/-! ## (4) nothing is sent in reply to an Error Report -/
+
+/-- `rtr_receive_pdu`: if the PDU at the front of the stream is an Error Report (type byte 10),
+    nothing is sent, whatever is wrong with it (length, version, size check) -/
+theorem er_receivePdu_error_pdu (c : Conn) (n : Net) (own : Nat) (t : Int) (hok : TapeOk n.tape)
+    (h10 : (tapeBytes n.tape).getD 1 0 = 10)
+    (res : RecvRes) (c1 : Conn) (m : Net) (hr : receivePdu c n own t = (res, c1, m)) : Sent n m [] := by
+  obtain ⟨cls, hdr, hs, _, _, _, hh, _⟩ := er_receivePdu c n own t hok res c1 m hr
+  have : classReports c hdr cls = [] := by
+    by_cases hnh : ∀ k, cls ≠ .noHeader k
+    · obtain ⟨_, hhdr, h8⟩ := hh hnh
+      have h2 : 2 ≤ hdr.length := by rw [hhdr, List.length_take]; omega
+      have h1 : hdr.getD 1 0 = 10 := by rw [hhdr, getD_take _ 8 1 (by omega)]; exact h10
+      cases cls <;> first | rfl | exact er_repOf_error _ _ _ _ h2 h1
+    · cases cls <;> first | rfl | (exfalso; apply hnh; intro k hk; cases hk)
+  rw [this] at hs; exact hs
+
+/-- an Error Report received inside the answer (`rtr_sync_receive_and_store_pdus`) ends the
+    exchange without a reply -/
+theorem er_recvAndStore_error_pdu (fuel : Nat) (st : St) (v4 v6 keys : List (List Nat)) (raw : List Nat)
+    (c1 : Conn) (n1 : Net)
+    (hrecv : receivePdu st.c st.n st.t.own Gen.RTR_RECV_TIMEOUT = (.ok raw, c1, n1)) (hty : typeOf raw = 10) :
+    (recvAndStore (fuel + 1) st v4 v6 keys).1 = false ∧ Sent n1 (recvAndStore (fuel + 1) st v4 v6 keys).2.1.n [] := by
+  unfold recvAndStore
+  rw [hrecv]
+  simp only [hty]
+  exact ⟨by first | rfl | trivial, er_handleErrorPdu c1 n1 st.t.own raw⟩
+
+/-- an Error Report as the first answer to a query (`rtr_sync`): handled, not answered -/
+theorem er_syncG_error_pdu (fuel : Nat) (st : St) (raw : List Nat) (st1 : St)
+    (hfirst : syncFirst fuel st = (some raw, st1)) (hty : typeOf raw = 10) :
+    (syncG fuel st).1 = false ∧ Sent st1.n (syncG fuel st).2.1.n [] := by
+  unfold syncG
+  rw [hfirst]
+  simp only [hty]
+  exact ⟨by first | rfl | trivial, er_handleErrorPdu st1.c st1.n st1.t.own raw⟩
+
+/-! ## (3) (5) the sync-level rejections, site by site: exactly one report -/
+
+/-- End of Data with a session id other than the socket's: code 0 (Corrupt Data), the whole End of
+    Data PDU echoed, the text names both ids; the exchange fails -/
+theorem er_eod_session_mismatch (fuel : Nat) (st : St) (v4 v6 keys : List (List Nat)) (raw : List Nat)
+    (c1 : Conn) (n1 : Net)
+    (hrecv : receivePdu st.c st.n st.t.own Gen.RTR_RECV_TIMEOUT = (.ok raw, c1, n1)) (hty : typeOf raw = 7)
+    (hsess : be16 raw 2 ≠ st.ss.session) (h8 : 8 ≤ raw.length) (hs : c1.state ≠ .shutdown) :
+    (recvAndStore (fuel + 1) st v4 v6 keys).1 = false ∧
+    Sent n1 (recvAndStore (fuel + 1) st v4 v6 keys).2.1.n
+      [⟨c1.version, 0, raw, txtEodSession st.ss.session (be16 raw 2)⟩] := by
+  have h10 : raw.getD 1 0 ≠ 10 := by unfold typeOf at hty; omega
+  unfold recvAndStore
+  rw [hrecv]
+  simp only [hty]
+  rw [if_pos hsess]
+  refine ⟨rfl, ?_⟩
+  have hq := (er_sendErrorFromHost c1 n1 raw raw.length 0 (txtEodSession st.ss.session (be16 raw 2))).then_quiet
+    (Sent.state c1 _ st.t.own .errFatal)
+  rw [er_repHost_one c1 raw 0 _ h8 h10 hs] at hq
+  exact hq
+
+/-- a PDU that does not belong into the answer (Serial Query, Reset Query, Cache Response, Cache
+    Reset — the types that pass the size check and are none of 0, 4, 6, 7, 9, 10): code 0, the 8
+    header bytes echoed; the exchange fails -/
+theorem er_unexpected_in_answer (fuel : Nat) (st : St) (v4 v6 keys : List (List Nat)) (raw : List Nat)
+    (c1 : Conn) (n1 : Net)
+    (hrecv : receivePdu st.c st.n st.t.own Gen.RTR_RECV_TIMEOUT = (.ok raw, c1, n1))
+    (hty : typeOf raw ≠ 4 ∧ typeOf raw ≠ 6 ∧ typeOf raw ≠ 9 ∧ typeOf raw ≠ 7 ∧ typeOf raw ≠ 10 ∧ typeOf raw ≠ 0)
+    (hs : c1.state ≠ .shutdown) :
+    (recvAndStore (fuel + 1) st v4 v6 keys).1 = false ∧
+    Sent n1 (recvAndStore (fuel + 1) st v4 v6 keys).2.1.n [⟨c1.version, 0, raw.take 8, txtUnexpectedSync⟩] := by
+  obtain ⟨t4, t6, t9, t7, t10, t0⟩ := hty
+  unfold recvAndStore
+  rw [hrecv]
+  simp only
+  refine ⟨by first | rfl | trivial, ?_⟩
+  have hq := er_sendErrorFromHost c1 n1 raw 8 0 txtUnexpectedSync
+  rw [er_repHost_8, er_repOf_one c1 (raw.take 8) 0 _ (fun h => t10 (by
+    have := h.2; rw [getD_take raw 8 1 (by omega)] at this; exact this)) hs] at hq
+  exact hq
+
+/-- the first answer to a query is neither a Cache Response, a Cache Reset nor an Error Report:
+    code 0, the 8 header bytes echoed; `rtr_sync` fails -/
+theorem er_unexpected_first (fuel : Nat) (st : St) (raw : List Nat) (st1 : St)
+    (hfirst : syncFirst fuel st = (some raw, st1))
+    (hty : typeOf raw ≠ 10 ∧ typeOf raw ≠ 8 ∧ typeOf raw ≠ 3) (hs : st1.c.state ≠ .shutdown) :
+    (syncG fuel st).1 = false ∧
+    Sent st1.n (syncG fuel st).2.1.n [⟨st1.c.version, 0, raw.take 8, txtUnexpectedSync2⟩] := by
+  obtain ⟨t10, t8, t3⟩ := hty
+  unfold syncG
+  rw [hfirst]
+  simp only
+  refine ⟨by first | rfl | trivial, ?_⟩
+  have hq := er_sendErrorFromHost st1.c st1.n raw 8 0 txtUnexpectedSync2
+  rw [er_repHost_8, er_repOf_one st1.c (raw.take 8) 0 _ (fun h => t10 (by
+    have h2 := h.2
+    have hl : 2 ≤ (raw.take 8).length := h.1
+    rw [List.length_take] at hl
+    rw [getD_take raw 8 1 (by omega)] at h2; exact h2)) hs] at hq
+  exact hq
+
+/-- Cache Response with a session id other than the one of the running session: code 0, NO
+    encapsulated PDU (`rtr_send_error_pdu_from_host(NULL, 0)`), `rtr_sync` fails -/
+theorem er_cache_response_session (c : Conn) (ss : Sess) (n : Net) (own : Nat) (raw : List Nat)
+    (hreq : ss.reqSession = false) (hsess : ss.session ≠ be16 raw 2) (hs : c.state ≠ .shutdown) :
+    (handleCacheResponse c ss n own raw).1 = false ∧
+    Sent n (handleCacheResponse c ss n own raw).2.2.2 [⟨c.version, 0, [], txtWrongSession⟩] := by
+  obtain ⟨hq, _, _, hiff⟩ := er_handleCacheResponse c ss n own raw
+  rw [if_pos ⟨hreq, hsess⟩, er_repOf_one c [] 0 _ (fun h => by simp at h) hs] at hq
+  exact ⟨hiff.2 ⟨hreq, hsess⟩, hq⟩
+
+/-! ## (3) the codes of the table stage -/
+
+/-- `rtr_update_pfx_table`, class by class (PDU of at least 8 bytes, not an Error Report, socket not
+    shut down): prefix / max length beyond the address width → code 0; flags other than 0 / 1 →
+    code 0; announcement of a record already there → code 7 (Duplicate Announcement Received);
+    withdrawal of a record not there → code 6 (Withdrawal of Unknown Record); otherwise nothing.
+    The whole PDU is echoed. -/
+theorem er_pfx_codes (c : Conn) (t : Tbl) (raw : List Nat) (h8 : 8 ≤ raw.length) (h10 : raw.getD 1 0 ≠ 10)
+    (hs : c.state ≠ .shutdown) :
+    (((pfxRecOf raw).len > maxBitsOf raw ∨ (pfxRecOf raw).maxLen > maxBitsOf raw) →
+      pfxReports c t raw = [⟨c.version, 0, raw, txtBadLenPfx⟩]) ∧
+    (¬ ((pfxRecOf raw).len > maxBitsOf raw ∨ (pfxRecOf raw).maxLen > maxBitsOf raw) →
+      ((flagsOf raw ≠ 0 ∧ flagsOf raw ≠ 1) → pfxReports c t raw = [⟨c.version, 0, raw, txtBadFlagsPfx⟩]) ∧
+      (flagsOf raw = 1 → pfxRecOf raw ∈ t.upd.pt → pfxReports c t raw = [⟨c.version, 7, raw, []⟩]) ∧
+      (flagsOf raw = 0 → pfxRecOf raw ∉ t.upd.pt → pfxReports c t raw = [⟨c.version, 6, raw, []⟩]) ∧
+      (flagsOf raw = 1 → pfxRecOf raw ∉ t.upd.pt → pfxReports c t raw = []) ∧
+      (flagsOf raw = 0 → pfxRecOf raw ∈ t.upd.pt → pfxReports c t raw = [])) := by
+  unfold pfxReports
+  refine ⟨fun h => by rw [if_pos h]; exact er_repHost_one c raw 0 _ h8 h10 hs, fun hn => ?_⟩
+  rw [if_neg hn]
+  refine ⟨fun h => by rw [if_pos h]; exact er_repHost_one c raw 0 _ h8 h10 hs, ?_, ?_, ?_, ?_⟩
+  · intro hf hm
+    rw [if_neg (fun h => h.2 hf), if_pos hf]
+    unfold ptAdd; rw [if_pos hm]
+    exact er_repHost_one c raw 7 _ h8 h10 hs
+  · intro hf hm
+    rw [if_neg (fun h => h.1 hf), if_neg (by omega)]
+    unfold ptRemove; rw [if_neg hm]
+    exact er_repHost_one c raw 6 _ h8 h10 hs
+  · intro hf hm
+    rw [if_neg (fun h => h.2 hf), if_pos hf]
+    unfold ptAdd; rw [if_neg hm]
+  · intro hf hm
+    rw [if_neg (fun h => h.1 hf), if_neg (by omega)]
+    unfold ptRemove; rw [if_pos hm]
+
+/-- `rtr_update_spki_table`, class by class -/
+theorem er_key_codes (c : Conn) (t : Tbl) (raw : List Nat) (h8 : 8 ≤ raw.length) (h10 : raw.getD 1 0 ≠ 10)
+    (hs : c.state ≠ .shutdown) :
+    ((flagsOf raw ≠ 0 ∧ flagsOf raw ≠ 1) → keyReports c t raw = [⟨c.version, 0, raw, txtBadFlagsKey⟩]) ∧
+    (flagsOf raw = 1 → keyRecOf raw ∈ t.upd.kt → keyReports c t raw = [⟨c.version, 7, raw, []⟩]) ∧
+    (flagsOf raw = 0 → keyRecOf raw ∉ t.upd.kt → keyReports c t raw = [⟨c.version, 6, raw, []⟩]) ∧
+    (flagsOf raw = 1 → keyRecOf raw ∉ t.upd.kt → keyReports c t raw = []) ∧
+    (flagsOf raw = 0 → keyRecOf raw ∈ t.upd.kt → keyReports c t raw = []) := by
+  unfold keyReports
+  refine ⟨fun h => by rw [if_pos h]; exact er_repHost_one c raw 0 _ h8 h10 hs, ?_, ?_, ?_, ?_⟩
+  · intro hf hm
+    rw [if_neg (fun h => h.2 hf), if_pos hf]
+    unfold ktAdd; rw [if_pos hm]
+    exact er_repHost_one c raw 7 _ h8 h10 hs
+  · intro hf hm
+    rw [if_neg (fun h => h.1 hf), if_neg (by omega)]
+    unfold ktRemove; rw [if_neg hm]
+    exact er_repHost_one c raw 6 _ h8 h10 hs
+  · intro hf hm
+    rw [if_neg (fun h => h.2 hf), if_pos hf]
+    unfold ktAdd; rw [if_neg hm]
+  · intro hf hm
+    rw [if_neg (fun h => h.1 hf), if_neg (by omega)]
+    unfold ktRemove; rw [if_pos hm]
+
+theorem er_streamEcho_prefix (s enc : List Nat) (h : StreamEcho s enc) :
+    ∃ rest, AtBoundary s rest ∧ enc <+: rest := by
+  obtain ⟨rest, hb, h | h⟩ := h
+  · exact ⟨rest, hb, by rw [h.2]; exact List.take_prefix _ _⟩
+  · exact ⟨rest, hb, h.2⟩
 
 end Rtr.P
